@@ -14,6 +14,7 @@ def main (args : List String) : IO UInt32 := do
     | ["hash"] => Driver.Hash.run lines
     | ["codec"] => Driver.CodecEngine.run lines
     | ["seq"] => Driver.Seq.run lines
+    | ["crash"] => Driver.Seq.run lines
     | ["hint"] => Driver.HintE.run lines
     | ["proto"] => Driver.Proto.run lines
     | _ => do IO.eprintln "usage: driver <engine> < trace"; return 2
